@@ -98,6 +98,22 @@ theorem convert_zoom_range (h : Header.Header) (entries : List Entry) (hasc : Fi
       TileId.goZoom t ≤ (Finalize.setZoomCenterDefaults h entries).maxZoom :=
   Finalize.zoom_range_covers h entries hasc e he t ht
 
+/-- the center row of the source is kept; only when zoom, longitude and latitude are ALL zero ("no center
+    declared") is it replaced by the minimum zoom and the midpoint of the bounds -/
+theorem convert_center_kept (h : Header.Header) (entries : List Entry)
+    (hd : ¬ (h.centerZoom = 0 ∧ h.centerLonE7 = 0 ∧ h.centerLatE7 = 0)) :
+    (Finalize.setZoomCenterDefaults h entries).centerZoom = h.centerZoom ∧
+    (Finalize.setZoomCenterDefaults h entries).centerLonE7 = h.centerLonE7 ∧
+    (Finalize.setZoomCenterDefaults h entries).centerLatE7 = h.centerLatE7 :=
+  Finalize.declared_center_kept h entries hd
+
+theorem convert_center_default (h : Header.Header) (entries : List Entry)
+    (hz : h.centerZoom = 0 ∧ h.centerLonE7 = 0 ∧ h.centerLatE7 = 0) :
+    (Finalize.setZoomCenterDefaults h entries).centerZoom = (Finalize.setZoomCenterDefaults h entries).minZoom ∧
+    (Finalize.setZoomCenterDefaults h entries).centerLonE7 = Finalize.i32avg h.minLonE7 h.maxLonE7 ∧
+    (Finalize.setZoomCenterDefaults h entries).centerLatE7 = Finalize.i32avg h.minLatE7 h.maxLatE7 :=
+  Finalize.absent_center_defaulted h entries hz
+
 /-- non-vacuity (test): a three-entry list whose last run crosses from zoom 1 into zoom 2 is `Asc` -/
 example : Finalize.Asc [⟨0, 0, 3, 1⟩, ⟨1, 3, 2, 2⟩, ⟨4, 5, 2, 3⟩] := by
   simp only [Finalize.Asc]; decide
